@@ -829,6 +829,7 @@ def _subscript(it, base, idx):
         f = base.fn
         r = NDArray((base.shape[0], 1), base.dtype, lambda i, k: f(i))
         r.col_of = base
+        r.view_of = base
         return r
     # (n, 1) array indexed by an (n, 1) boolean mask
     if isinstance(idx, NDArray) and idx.dtype == 'bool' and idx.rank == 2 and base.rank == 2:
@@ -1171,6 +1172,270 @@ def _self_check():
         ok, v = False, e
     if not ok:
         raise ImportError('pyvc.warp_model: np_model.elementwise no longer dispatches through np_model._scalar_op/_result_dtype (%r)' % (v,))
+
+
+
+
+# ------------------------------------------------------------------------------------------ wider vocabulary (what a realistic edit of output_warpers.py uses)
+contract('numpy.mean', 'np.mean(a) / a.mean() of a float array: NaN for an empty array (RuntimeWarning) and when some element is NaN; for finite elements a finite '
+         'value with min <= mean <= max; when all elements are finite and >= 0: mean >= 0 and mean == 0 iff all elements are 0 (mean = sum / n over the reals)')
+contract('numpy.nansum', 'np.nansum(a): the sum with NaN elements counted as 0')
+contract('numpy.var/std', 'np.var / np.std (nan-variants: over the non-NaN elements): NaN for no (non-NaN) element or, for the plain variants, when some element is '
+         'NaN; for finite elements finite, >= 0, and == 0 exactly when all (non-NaN) elements are equal (real arithmetic)')
+contract('numpy.where', 'np.where(c, x, y): element-wise x where c else y (scalars broadcast); the result is a new array')
+contract('numpy.elementwise_misc', 'np.maximum/np.minimum (NaN if either is NaN), np.sign, np.square, np.count_nonzero: element-wise / counting definitions')
+contract('numpy.views', 'reshape / ravel / a[:, np.newaxis] may return a VIEW: writing through the result is not modelled (reported as unsupported, never guessed); '
+         'flatten / astype / copy / boolean-mask reads are copies')
+
+
+def _truthy(dtype, t):
+    if dtype == 'bool':
+        return t
+    if dtype == 'int':
+        return t != 0
+    return X.truth(t)
+
+
+def float_mean(it, a, nan_aware=False):
+    a = _rank12(a, 'mean')
+    if nan_aware:
+        return _central(it, a, 'mean', True, 'nanmean')
+    run = it.run
+    use(it, 'numpy.mean')
+    if it.pure:
+        raise Unsupported('mean in pure mode')
+    m = run.fresh('mean', X.XReal)
+    empty = zi(total_size(a)) == 0
+    anynan = named_bool(it, exists_elem(a, X.is_nan), 'anynan')
+    allfin = named_bool(it, forall_elems(a, X.is_fin), 'allfin')
+    nonneg = named_bool(it, forall_elems(a, lambda x: z3.And(X.is_fin(x), X.r(x) >= 0)), 'nonneg')
+    allzero = named_bool(it, forall_elems(a, lambda x: x == X.fin(z3.RealVal(0))), 'allzero')
+    lo_v, lo_r = witness(it, a, 'wlo_mean')
+    hi_v, hi_r = witness(it, a, 'whi_mean')
+    fact(run, z3.Implies(z3.Or(empty, zb(anynan)), X.is_nan(m)))
+    fact(run, z3.Implies(z3.And(z3.Not(empty), zb(allfin)), z3.And(X.is_fin(m), lo_r, hi_r, X.is_fin(lo_v), X.is_fin(hi_v), X.le(lo_v, m), X.le(m, hi_v))))
+    fact(run, z3.Implies(z3.And(z3.Not(empty), zb(allfin)), forall_elems(a, lambda x: z3.And(X.le(lo_v, x), X.le(x, hi_v)))))
+    fact(run, z3.Implies(z3.And(z3.Not(empty), zb(nonneg)), z3.And(X.r(m) >= 0, (X.r(m) == 0) == zb(allzero))))
+    return m
+
+
+def _spread(it, a, nan_aware, name):
+    """np.var / np.std / nan-variants: only sign and the zero case are specified"""
+    a = _rank12(a, name)
+    run = it.run
+    use(it, 'numpy.var/std')
+    s = run.fresh(name, X.XReal)
+    notnan = lambda x: z3.Not(X.is_nan(x))
+    some = named_bool(it, exists_elem(a, notnan), 'somenum')
+    anynan = named_bool(it, exists_elem(a, X.is_nan), 'anynan')
+    allfin = named_bool(it, forall_elems(a, lambda x: z3.Or(X.is_nan(x), X.is_fin(x))), 'allfin')
+    wv, wr = witness(it, a, 'w' + name)
+    alleq = named_bool(it, forall_elems(a, lambda x: z3.Implies(notnan(x), x == wv)), 'alleq')
+    bad = z3.Not(zb(some)) if nan_aware else z3.Or(z3.Not(zb(some)), zb(anynan))
+    fact(run, z3.Implies(bad, X.is_nan(s)))
+    fact(run, z3.Implies(z3.And(z3.Not(bad), zb(allfin)), z3.And(X.is_fin(s), X.r(s) >= 0, wr, notnan(wv), (X.r(s) == 0) == zb(alleq))))
+    return s
+
+
+def np_where(it, args, kw):
+    if len(args) != 3:
+        raise Unsupported('np.where with %d argument(s) (only the 3-argument select is modelled)' % len(args))
+    use(it, 'numpy.where')
+    c, x, y = args
+    arrs = [v for v in (c, x, y) if isinstance(v, NDArray)]
+    if not arrs:
+        return M.ite(it, it.truth_term(c), x, y)
+    shape, rank = arrs[0].shape, arrs[0].rank
+    for v in arrs[1:]:
+        if v.rank != rank:
+            raise Unsupported('np.where with operands of different ranks')
+        for p, q in zip(shape, v.shape):
+            NP.same_dim(it, p, q)
+    dts = [(v.dtype if isinstance(v, NDArray) else NP.dtype_of_scalar(v)) for v in (x, y)]
+    dt = 'float' if 'float' in dts else ('int' if 'int' in dts else 'bool')
+    at = lambda v, i: v.fn(*i) if isinstance(v, NDArray) else v
+
+    def fn(*i):
+        ci = at(c, i)
+        ci = ci if (z3.is_expr(ci) and ci.sort() == z3.BoolSort()) or isinstance(ci, bool) else _truthy(NP.dtype_of_scalar(ci), E.to_z3(ci))
+        return z3.If(_zb(ci), elem_of(at(x, i), dt), elem_of(at(y, i), dt))
+    return NDArray(shape, dt, fn)
+
+
+def _binary_map(fn_x):
+    def fn(it, args, kw):
+        use(it, 'numpy.elementwise_misc')
+        a, b = args[0], args[1]
+        if isinstance(a, NDArray) and isinstance(b, NDArray):
+            if a.rank != b.rank:
+                raise Unsupported('element-wise function on arrays of different ranks')
+            for p, q in zip(a.shape, b.shape):
+                NP.same_dim(it, p, q)
+            f, g = a.fn, b.fn
+            return NDArray(a.shape, 'float', lambda *i: fn_x(X.lift(f(*i)), X.lift(g(*i))))
+        if isinstance(a, NDArray):
+            f = a.fn
+            return NDArray(a.shape, 'float', lambda *i: fn_x(X.lift(f(*i)), X.lift(b)))
+        if isinstance(b, NDArray):
+            g = b.fn
+            return NDArray(b.shape, 'float', lambda *i: fn_x(X.lift(a), X.lift(g(*i))))
+        return fn_x(X.lift(a), X.lift(b))
+    return fn
+
+
+def xmaximum(a, b):
+    return z3.If(z3.Or(X.is_nan(a), X.is_nan(b)), X.nan, z3.If(X.lt(a, b), b, a))
+
+
+def xminimum(a, b):
+    return z3.If(z3.Or(X.is_nan(a), X.is_nan(b)), X.nan, z3.If(X.lt(b, a), b, a))
+
+
+def xsign(a):
+    z = z3.RealVal
+    return z3.If(X.is_nan(a), X.nan, z3.If(X.sign_pos(a), X.fin(z(1)), z3.If(X.sign_neg(a), X.fin(z(-1)), X.fin(z(0)))))
+
+
+def _as_float_array(it, a, what):
+    if not isinstance(a, NDArray):
+        xs = None if (z3.is_expr(a) or isinstance(a, (bool, int, float))) else M.try_iterate(it, a)
+        if xs is None:
+            raise Unsupported('%s of %r' % (what, a))
+        a = NP.from_nested(it, xs)
+    return a
+
+
+def _no_axis(name, args, kw):
+    if kw.get('axis', args[1] if len(args) > 1 else None) is not None:
+        raise Unsupported('%s with an axis' % name)
+    for k in kw:
+        if k not in ('axis',):
+            raise Unsupported('%s(%s=...)' % (name, k))
+
+
+def _np_sum(it, args, kw):
+    a = _as_float_array(it, args[0], 'np.sum')
+    if a.dtype == 'float':
+        _no_axis('np.sum', args, kw)
+        return float_sum(it, a)
+    return NP.reduce_sum(it, a, kw.get('axis', args[1] if len(args) > 1 else None))
+
+
+def _np_nansum(it, args, kw):
+    a = _as_float_array(it, args[0], 'np.nansum')
+    _no_axis('np.nansum', args, kw)
+    use(it, 'numpy.nansum')
+    f = _rank12(a, 'nansum').fn
+    return float_sum(it, NDArray(a.shape, 'float', lambda *i: z3.If(X.is_nan(f(*i)), X.fin(z3.RealVal(0)), f(*i))))
+
+
+def _np_mean(nan_aware):
+    def fn(it, args, kw):
+        _no_axis('np.mean', args, kw)
+        return float_mean(it, _as_float_array(it, args[0], 'np.mean'), nan_aware)
+    return fn
+
+
+def _np_spread(nan_aware, name):
+    def fn(it, args, kw):
+        _no_axis('np.' + name, args, kw)
+        return _spread(it, _as_float_array(it, args[0], name), nan_aware, name)
+    return fn
+
+
+def _np_count_nonzero(it, args, kw):
+    a = _as_float_array(it, args[0], 'np.count_nonzero')
+    use(it, 'numpy.elementwise_misc')
+    f, dt = a.fn, a.dtype
+    return NP.reduce_sum(it, NDArray(a.shape, 'bool', lambda *i: _truthy(dt, f(*i))), kw.get('axis', args[1] if len(args) > 1 else None))
+
+
+for _pkg in ('numpy', 'jax.numpy'):
+    EXTERNAL[_pkg + '.mean'] = Builtin('np.mean', _np_mean(False))
+    EXTERNAL[_pkg + '.nanmean'] = Builtin('np.nanmean', _np_mean(True))
+    EXTERNAL[_pkg + '.sum'] = Builtin('np.sum', _np_sum)
+    EXTERNAL[_pkg + '.nansum'] = Builtin('np.nansum', _np_nansum)
+    EXTERNAL[_pkg + '.var'] = Builtin('np.var', _np_spread(False, 'var'))
+    EXTERNAL[_pkg + '.nanvar'] = Builtin('np.nanvar', _np_spread(True, 'nanvar'))
+    EXTERNAL[_pkg + '.std'] = Builtin('np.std', _np_spread(False, 'std'))
+    EXTERNAL[_pkg + '.nanstd'] = Builtin('np.nanstd', _np_spread(True, 'nanstd'))
+    EXTERNAL[_pkg + '.where'] = Builtin('np.where', np_where)
+    EXTERNAL[_pkg + '.maximum'] = Builtin('np.maximum', _binary_map(xmaximum))
+    EXTERNAL[_pkg + '.minimum'] = Builtin('np.minimum', _binary_map(xminimum))
+    EXTERNAL[_pkg + '.sign'] = Builtin('np.sign', _lift_map(xsign))
+    EXTERNAL[_pkg + '.square'] = Builtin('np.square', _lift_map(xpow2))
+    EXTERNAL[_pkg + '.absolute'] = Builtin('np.absolute', _lift_map(xabs))
+    EXTERNAL[_pkg + '.count_nonzero'] = Builtin('np.count_nonzero', _np_count_nonzero)
+    EXTERNAL[_pkg + '.copy'] = Builtin('np.copy', lambda it, args, kw: copy_of(args[0]) if isinstance(args[0], NDArray) else args[0])
+    EXTERNAL[_pkg + '.ravel'] = Builtin('np.ravel', lambda it, args, kw: ravel(it, args[0]))
+
+
+def as_view(r, base):
+    r.view_of = base          # ghost: numpy may return a view of `base`; a write through it is refused (Unsupported), never mis-modelled
+    return r
+
+
+def ravel(it, a):
+    if not isinstance(a, NDArray):
+        raise Unsupported('ravel of %r' % (a,))
+    if a.rank == 1:
+        return a              # ravel of a contiguous 1-d array is the array itself
+    return as_view(flatten(it, a), a)
+
+
+_reshape_plain = reshape
+
+
+def reshape(it, a, shape):          # noqa: F811
+    shape = tuple(shape) if isinstance(shape, (tuple, list)) else (shape,)
+    if any(isinstance(x, int) and x == -1 for x in shape):
+        if len(shape) == 1:
+            return ravel(it, a)
+        if len(shape) == 2 and shape[0] == -1 and conc(shape[1]) == 1:
+            shape = (total_size(a), 1)
+        elif len(shape) == 2 and shape[1] == -1 and conc(shape[0]) == 1 and a.rank == 1:
+            f = a.fn
+            return as_view(NDArray((1, a.shape[0]), a.dtype, lambda i, k: f(k)), a)
+        else:
+            raise Unsupported('reshape%r' % (shape,))
+    if a.rank == 2 and len(shape) == 2 and not all(implied(it, zi(x) == zi(y)) for x, y in zip(shape, a.shape)):
+        a = flatten(it, a)
+    return as_view(_reshape_plain(it, a, shape), a)
+
+
+_getattr_prev = _getattr
+
+
+def _getattr2(it, v, a):
+    if not isinstance(v, NDArray):
+        return M.MISSING
+    if a == 'mean' and v.dtype == 'float':
+        return Builtin('mean', lambda it_, args, kw: (_no_axis('mean', [v] + list(args), kw), float_mean(it_, v))[1])
+    if a in ('std', 'var') and v.dtype == 'float':
+        return Builtin(a, lambda it_, args, kw: (_no_axis(a, [v] + list(args), kw), _spread(it_, v, False, a))[1])
+    if a == 'ravel':
+        return Builtin('ravel', lambda it_, args, kw: ravel(it_, v))
+    if a == 'reshape':
+        return Builtin('reshape', lambda it_, args, kw: reshape(it_, v, args[0] if len(args) == 1 else tuple(args)))
+    if a == 'T' and v.rank == 1:
+        return v
+    return M.MISSING
+
+
+NP._chain('value_getattr_hook', _getattr2)
+for _pkg in ('numpy', 'jax.numpy'):
+    EXTERNAL[_pkg + '.reshape'] = Builtin('np.reshape', lambda it, args, kw: reshape(it, args[0], args[1] if len(args) > 1 else kw.get('shape', kw.get('newshape'))))
+
+_setitem_prev_views = M.setitem_hook
+
+
+def _setitem_views(it, base, idx, v):
+    if isinstance(base, NDArray) and getattr(base, 'view_of', None) is not None:
+        raise Unsupported('item assignment through reshape/ravel/newaxis result (numpy may alias the source array; views are not modelled)')
+    return _setitem_prev_views(it, base, idx, v)
+
+
+M.setitem_hook = _setitem_views
 
 
 _self_check()
